@@ -208,15 +208,18 @@ def run_shape(pid, tier, t0):
     return report_replay(pid, results, tier, t0, assumptions=SHAPE_ASSUME, trace=True)
 
 def frames_configs(tier):
-    """(A) one caller frame object reused / mutated / re-submitted, two explicit payloads; (B) in-place edits of stored frames and column
-    adders over data sets with up to two empty frames created by one extension (index up to count+2), automatic payloads"""
+    """(callers) one caller frame object reused / mutated / re-submitted, two explicit payloads, in-place edits;
+    (gaps) in-place edits and point columns over data sets with up to two empty frames created by one extension (index up to count+2);
+    (columns) point and channel columns (two channel names) over the same data sets, without in-place edits"""
     if tier == "quick":
-        return [("MC_Frames/callers", {"NTags": 2, "NCallers": 1, "MaxFrames": 2, "IdxSlack": 2}),
-                ("MC_Frames/gaps", {"NTags": 0, "NCallers": 0, "MaxFrames": 3, "IdxSlack": 3})]
-    return [("MC_Frames/callers", {"NTags": 2, "NCallers": 1, "MaxFrames": 3, "IdxSlack": 2}),
-            ("MC_Frames/gaps", {"NTags": 0, "NCallers": 1, "MaxFrames": 3, "IdxSlack": 3})]
+        return [("MC_Frames/callers", {"NTags": 2, "NCallers": 1, "NChan": 1, "MaxFrames": 2, "IdxSlack": 2, "WithEdits": "TRUE"}),
+                ("MC_Frames/gaps", {"NTags": 0, "NCallers": 0, "NChan": 1, "MaxFrames": 3, "IdxSlack": 3, "WithEdits": "TRUE"}),
+                ("MC_Frames/columns", {"NTags": 0, "NCallers": 0, "NChan": 2, "MaxFrames": 3, "IdxSlack": 3, "WithEdits": "FALSE"})]
+    return [("MC_Frames/callers", {"NTags": 2, "NCallers": 1, "NChan": 1, "MaxFrames": 3, "IdxSlack": 2, "WithEdits": "TRUE"}),
+            ("MC_Frames/gaps", {"NTags": 0, "NCallers": 1, "NChan": 1, "MaxFrames": 3, "IdxSlack": 3, "WithEdits": "TRUE"}),
+            ("MC_Frames/columns", {"NTags": 0, "NCallers": 0, "NChan": 2, "MaxFrames": 3, "IdxSlack": 3, "WithEdits": "TRUE"})]
 def frames_consts(tier):
-    return frames_configs("quick")[1][1]
+    return frames_configs("quick")[2][1]
 
 def run_frames(pid, tier, t0):
     ez = report_replay.ez = vlib.build("plain")
@@ -559,7 +562,7 @@ def run_builds(pid, tier, t0):
     edge_files = []
     plan = [("MC_IO.tla", "MC_IO.cfg", io_consts("quick"), "io"), ("MC_Format.tla", "MC_Format.cfg", {"Variant": '"patterns"'}, "patterns")]
     if tier != "quick":
-        plan += [("MC_Format.tla", "MC_Format.cfg", {"Variant": '"layout"'}, "layout"), ("MC_Params.tla", "MC_Params.cfg", {"MaxVals": 2, "Deep": "FALSE"}, "params"),
+        plan += [("MC_Format.tla", "MC_Format.cfg", {"Variant": '"layout"', "Full": "FALSE" if tier == "quick" else "TRUE"}, "layout"), ("MC_Params.tla", "MC_Params.cfg", {"MaxVals": 2, "Deep": "FALSE"}, "params"),
                  ("MC_Lookup.tla", "MC_Lookup.cfg", {"NPts": 2, "MaxFrames": 1}, "lookup")]
     states = transitions = 0
     for mod, cfg, consts, tag in plan:
@@ -740,11 +743,13 @@ def run_format(pid, tier, t0):
     ez = report_replay.ez = vlib.build("plain")
     results = []
     if pid in ("C02", "C04"):
-        results.append(("MC_Format/layout", vlib.replay_slice("MC_Format.tla", "MC_Format.cfg", {"Variant": '"layout"'}, ez, tag="fmtlayout", timeout=6000)))
+        results.append(("MC_Format/layout", vlib.replay_slice("MC_Format.tla", "MC_Format.cfg", {"Variant": '"layout"', "Full": "FALSE" if tier == "quick" else "TRUE"}, ez, tag="fmtlayout", timeout=6000)))
     if pid == "C12":
         results.append(("MC_Format/patterns", vlib.replay_slice("MC_Format.tla", "MC_Format.cfg", {"Variant": '"patterns"'}, ez, tag="fmtpat", timeout=6000)))
     if pid == "C04":
         results.append(("MC_IO", vlib.replay_slice("MC_IO.tla", "MC_IO.cfg", io_consts(tier), ez, tag="io", timeout=6000)))
+        # load, edit, save, load, save over every residue of the parameter-section length (alignment sweep from a loaded object)
+        results.append(("MC_Align/loaded", vlib.replay_slice("MC_Align.tla", "MC_Align.cfg", {"KMax": 255, "FromLoaded": "TRUE"}, ez, tag="align2", timeout=6000, workers=8)))
     extra = {}
     if pid == "C12":
         extra = {"exhaustive_integer_spaces": "all 256 byte values and all 65536 16-bit integer values are stored in parameters of the generated files; "
